@@ -138,7 +138,8 @@ C03_ReportedRates(w0, o) ==
   Staked(w0) =>
     /\ o.rep.rateB  = Rate(o.rep.bondB, ClaimsB(w0))
     /\ o.rep.rateSt = Rate(o.rep.bondSt, ClaimsSt(w0))
-    /\ o.rep = Reported(w0)
+    \* (that the report equals the specification's own recomputation, Reported(w0), is conformance - KrpTrace - not C03:
+    \* a different but admissible split of a slashing loss, C06, must not be reported here)
 C03_Bond(w1, e, w2, o1) ==
   (e.ok /\ ~IsProbe(e) /\ ExecIs(e, "hub", "bond")) =>
     LET pay == e.tx.funds[1].a  u == e.tx.sender  r == o1.rep.rateB
@@ -345,12 +346,19 @@ ExitTx(tx) == tx.k = "exec" /\ \/ tx.c \in {"bsei", "stsei"}
                                \/ (tx.c = "hub" /\ tx.msg.k \in {"bond", "bond_for_st_sei", "withdraw_unbonded", "check_slashing"})
                                \/ (tx.c = "reward" /\ tx.msg.k = "claim_rewards")
 ExtModes == {[swap |-> s, oracle |-> o] : s \in {"ok", "fail"}, o \in {"ok", "fail", "zero"}}
+\* SpecLevel: TRUE when the behaviour under judgement is the specification's own (model checking, simulation): the statement
+\* is then about Apply itself.  Trace validation overrides it with FALSE: there the implementation is compared with the
+\* implementation (e.same, logged by the harness) - comparing it with the specification's outcome would be conformance, not C09.
+SpecLevel    == TRUE
+SpecLevelOff == FALSE
 C09_ExitsIgnoreStubs(w1, e, w2) ==
   (ExitTx(TopTx(e)) /\ ~IsProbe(e)) =>
-    \A m \in ExtModes :
-      LET wf == [w1 EXCEPT !.ext.swap = m.swap, !.ext.oracle = m.oracle]
-          r  == Apply(e.tx, wf)
-      IN r.ok = e.ok /\ r.fx = e.fx /\ r.w = [w2 EXCEPT !.ext.swap = m.swap, !.ext.oracle = m.oracle]
+    /\ e.same
+    /\ SpecLevel =>
+         \A m \in ExtModes :
+           LET wf == [w1 EXCEPT !.ext.swap = m.swap, !.ext.oracle = m.oracle]
+               r  == Apply(e.tx, wf)
+           IN r.ok = e.ok /\ r.fx = e.fx /\ r.w = [w2 EXCEPT !.ext.swap = m.swap, !.ext.oracle = m.oracle]
 C09_Step(w1, e, w2) == /\ C09_CanUnbond(w1, e) /\ C09_UndelegatedAfterEpoch(w1, e, w2) /\ C01_WithdrawSucceeds(w1, e)
                        /\ C09_ExitsIgnoreStubs(w1, e, w2)
 =============================================================================
